@@ -328,6 +328,8 @@ def gen_auth(rng, n_records, sweep_stride=1, kts=KT_ALL):
         if sch == "secp":
             for tw in ["highs", "zero_r", "zero_s", "r_n", "s_n"]:
                 tam.append((tw, recspec(rec, sig={"tweak": tw})))
+            tam.append(("sig_der", recspec(rec, sig={"der": True})))
+            tam.append(("sig_der_highs", recspec(rec, sig={"tweak": "highs", "der": True})))
         tam.append(("random_sig", recspec(rec, sig={"raw": rand_bytes(rng, 64)})))
         # signatures that HAVE a zero byte at the start of r / of s / at the end (found by counting a filler pair up
         # until the genuine signature has it): valid as they are; with that byte dropped, or with a zero byte added
@@ -451,6 +453,11 @@ def struct_mutations(rng, rec):
         so = sorted([p for p in nopk] + [[pkk, enc_str(ident)]], key=lambda p: bytes(p[0]))
         out.append(("ed_small_order_key_trivial_sig", {"rec": {"items": with_pairs(so), "sig": {"raw": ident + [0] * 32}}}))
         out.append(("ed_small_order_key_signed", mk(with_pairs(so))))
+        # non-canonical encodings of the same point (x sign bit set although x = 0; y = p + 1; both): where the
+        # back-end accepts them the record's key -- and hence the node id's preimage -- is the bytes as stored
+        for tagn, enc in [("signbit", [1] + [0] * 30 + [0x80]), ("y_p_plus_1", [0xee] + [0xff] * 30 + [0x7f]), ("both", [0xee] + [0xff] * 31)]:
+            nc = sorted([p for p in nopk] + [[pkk, enc_str(enc)]], key=lambda p: bytes(p[0]))
+            out.append(("ed_noncanonical_identity_" + tagn, {"rec": {"items": with_pairs(nc), "sig": {"raw": ident + [0] * 32}}}))
         for tag, v in [("pk_31_bytes", enc_str(KEYS[by]["pk"][:31])), ("pk_33_bytes", enc_str(KEYS[by]["pk"] + [0])),
                        ("pk_empty", enc_str([])), ("pk_list", enc_list([enc_str(KEYS[by]["pk"])]))]:
             out.append((tag, mk(pk_with(v))))
@@ -1427,7 +1434,7 @@ def gen_api(rng, n):
         variants = [{}, {"tweak": "flip", "bit": rng.randrange(512)}, {"len": 63}, {"len": 65}, {"len": 0}, {"len": 128}, {"raw": rand_bytes(rng, 64)},
                     {"over": rand_bytes(rng, 20)}, {"raw": [0] * 64}, {"raw": [255] * 64}]
         if scheme_of(signer) == "secp":
-            variants += [{"tweak": "highs"}, {"tweak": "zero_r"}, {"tweak": "zero_s"}]
+            variants += [{"tweak": "highs"}, {"tweak": "zero_r"}, {"tweak": "zero_s"}, {"der": True}, {"lpad": 1}, {"rpad": 1}, {"drop": 0}]
         for v in variants:
             steps.append({"op": "verifyraw", "signer": signer, "msg": msg, "sig": v})
     for _ in range(n):
